@@ -75,6 +75,9 @@ def plan(prop, tier):
                  sc([G, G, G, "clean", "save", "load"], N=3, D=3, P=2, S=(5000,), flags=["-realclean"], auto=2),
                  # a heavier fork of the same height after a Save, saved again and loaded
                  sc([G, G, "save", G, "save", "load"]),
+                 # Load on the repository object in use (back to the stored state), then the same headers again
+                 g(D=1, P=2, ops=maint_ops, n=num // 2, flags=["-liveload"]),
+                 sc([G, G, "save", G, "load", G, G], flags=["-liveload"]),
                  # a fork of a fork that is partly below the prune depth at Clean and overtakes afterwards
                  sc([G] * 11 + ["clean", G], N=12, D=12, P=1, works=(1, 3), shape=(0, 1, 2, 3, 4, 5, 1, 7, 8, 8, 10, 11),
                     scnum=600 if quick else 6000)]
